@@ -3588,12 +3588,20 @@ class TLSConnection(TLSRecordLayer):
 
         # check if the ClientHello and its extensions are well-formed
 
+        # the list of versions is defined as <2..254>, so it can't be empty
+        # (an extension without payload is parsed to None)
+        ver_ext = clientHello.getExtension(ExtensionType.supported_versions)
+        if ver_ext and not ver_ext.versions:
+            for result in self._sendError(
+                    AlertDescription.decode_error,
+                    "Malformed supported_versions extension"):
+                yield result
+
         #If client's version is too low, reject it
         real_version = clientHello.client_version
         if real_version >= (3, 3):
-            ext = clientHello.getExtension(ExtensionType.supported_versions)
-            if ext:
-                for v in ext.versions:
+            if ver_ext:
+                for v in ver_ext.versions:
                     if v in KNOWN_VERSIONS and v > real_version:
                         real_version = v
         if real_version < settings.minVersion:
@@ -3620,8 +3628,11 @@ class TLSConnection(TLSRecordLayer):
 
         # the list of signatures methods is defined as <2..2^16-2>, which
         # means it can't be empty, but it's only applicable to TLSv1.2 protocol
+        # (with supported_versions the negotiated version does not depend on
+        # the legacy client_version)
         ext = clientHello.getExtension(ExtensionType.signature_algorithms)
-        if clientHello.client_version >= (3, 3) and ext and not ext.sigalgs:
+        if (clientHello.client_version >= (3, 3) or ver_ext) \
+                and ext and not ext.sigalgs:
             for result in self._sendError(
                     AlertDescription.decode_error,
                     "Malformed signature_algorithms extension"):
@@ -3685,7 +3696,10 @@ class TLSConnection(TLSRecordLayer):
                 yield result
 
         # sanity check the ec point formats extension
-        if real_version <= (3, 3):
+        # (needed whenever TLS 1.2 or earlier can end up negotiated, TLS 1.3
+        # is negotiated only through the supported_versions extension)
+        if real_version <= (3, 3) or settings.maxVersion <= (3, 3) or \
+                not (ver_ext and (3, 4) in ver_ext.versions):
             ecExt = clientHello.getExtension(ExtensionType.ec_point_formats)
             if ecExt:
                 if not ecExt.formats:
@@ -3699,6 +3713,14 @@ class TLSConnection(TLSRecordLayer):
                             "Client sent ec_point_formats extension "
                             "without uncompressed format"):
                         yield result
+
+        # sanity check the cert_type extension
+        cert_type_ext = clientHello.getExtension(ExtensionType.cert_type)
+        if cert_type_ext and not cert_type_ext.certTypes:
+            for result in self._sendError(
+                    AlertDescription.decode_error,
+                    "Empty cert_type extension"):
+                yield result
 
         # sanity check the TLS 1.3 extensions
         ver_ext = clientHello.getExtension(ExtensionType.supported_versions)
@@ -3721,6 +3743,14 @@ class TLSConnection(TLSRecordLayer):
                 self._pha_supported = True
 
             key_exchange = None
+
+            # the list of shares may be empty, but it has to be there
+            # (checked here as with psk_ke the other checks are skipped)
+            if key_share and key_share.client_shares is None:
+                for result in self._sendError(
+                        AlertDescription.decode_error,
+                        "Empty key_share extension"):
+                    yield result
 
             if psk_modes:
                 if not psk_modes.modes:
@@ -4359,6 +4389,13 @@ class TLSConnection(TLSRecordLayer):
                                                   "Client Hello"):
                         yield result
 
+                if ext.client_shares is None:
+                    for result in self._sendError(AlertDescription
+                                                  .decode_error,
+                                                  "Empty key_share extension "
+                                                  "in second Client Hello"):
+                        yield result
+
                 # here we're assuming that the HRR was sent because of
                 # missing key share, that may not always be the case
                 if len(ext.client_shares) != 1:
@@ -4576,7 +4613,12 @@ class TLSConnection(TLSRecordLayer):
             else:
                 client_sigalgs = []
 
-        client_psks = client_hello.getExtension(ExtensionType.pre_shared_key)
+        # pre_shared_key is a TLS 1.3 extension (it is sanity checked only
+        # when TLS 1.3 is negotiated)
+        client_psks = None
+        if version > (3, 3):
+            client_psks = client_hello.getExtension(
+                ExtensionType.pre_shared_key)
 
         # Get all the certificates we can offer
         alt_certs = ((X509CertChain(i.certificates), i.key) for vh in
